@@ -257,6 +257,30 @@ func runAnalysis(j *Job, out *Out, workDir string) {
 		out.LoadErr = "load: " + err.Error()
 		return
 	}
+	// C17 monitor between on-demand construction steps: the instrumenter calls simrt.Hook after every
+	// dataflow.RunIntraProcedural; every fifth call (at most 25 per run) the step invariants are evaluated.
+	hookCalls, hookChecks := 0, 0
+	midViol := map[string]bool{}
+	midChecks := map[string]int{}
+	simrt.SetHook(func(site int, arg any) {
+		st, ok := arg.(*dataflow.AnalyzerState)
+		if !ok || st == nil || st.FlowGraph == nil {
+			return
+		}
+		hookCalls++
+		if hookCalls%5 != 0 || hookChecks >= 25 {
+			return
+		}
+		hookChecks++
+		v, c := checkGraphMode(st.FlowGraph, true)
+		for _, x := range v {
+			midViol["after an on-demand step: "+x] = true
+		}
+		for k, n := range c {
+			midChecks["step:"+k] += n
+		}
+	})
+	defer simrt.SetHook(nil)
 	var tres taint.AnalysisResult
 	var bres backtrace.AnalysisResult
 	var aerr error
@@ -330,6 +354,14 @@ func runAnalysis(j *Job, out *Out, workDir string) {
 	if graph != nil && pv == nil {
 		out.Summaries = len(graph.Summaries)
 		v, checks := checkGraph(graph)
+		for x := range midViol {
+			v = append(v, x)
+		}
+		sort.Strings(v)
+		for k, n := range midChecks {
+			checks[k] = n
+		}
+		checks["step:monitor-instants"] = hookChecks
 		out.C17 = v
 		out.C17Checks = checks
 	}
